@@ -2,6 +2,7 @@ import TantivyModel.Driver.Proto
 import TantivyModel.Model.SSTable.Search
 import TantivyModel.Model.SSTable.Merge
 import TantivyModel.Model.SSTable.AddrStore
+import TantivyModel.Model.SSTable.FileOps
 /-!
 Line protocol of the C15 model (ordered-map spec + sstable block model).
 
@@ -110,6 +111,11 @@ def searchAnswer {σ} (A : Automaton σ) (m : Assoc Nat) (d : Dict Nat) (lo hi :
   let spec := specItems m (fun k => matchLo lo k && matchHi hi k && A.accepts k)
   s!"{digest spec}~{digest (d.search A lo hi)}~{digest (d.searchDelta A lo hi)}"
 
+def searchLimAnswer {σ} (A : Automaton σ) (wam : Bool) (m : Assoc Nat) (d : Dict Nat) (lo hi : Bound)
+    (limit : Option Nat) : String :=
+  let spec := specItems m (fun k => matchLo lo k && matchHi hi k && A.accepts k)
+  s!"{digest spec}~{streamDigest (d.searchLim A wam lo hi limit)}"
+
 /-- one operation on spec `m` and block model `d` -/
 def answer (tables : Array (Table × Nat)) (m : Assoc Nat) (d : Dict Nat) (op : String) : String :=
   match op.splitOn ":" with
@@ -177,6 +183,12 @@ def answer (tables : Array (Table × Nat)) (m : Assoc Nat) (d : Dict Nat) (op : 
       let b := prefixBounds p
       s!"{digest spec}~{streamDigest (d.stream b.1 b.2 lim)}"
     | _, _ => "bad-op"
+  | ["autl", a, lo, hi, lim, w] =>
+    match parseAut tables a, parseBound lo, parseBound hi, parseLimit lim with
+    | some (.pfx p), some lo, some hi, some lim => searchLimAnswer (prefixAutomaton p) (w == "1") m d lo hi lim
+    | some (.lev dist q), some lo, some hi, some lim => searchLimAnswer (levAutomaton q dist) (w == "1") m d lo hi lim
+    | some (.tab t s), some lo, some hi, some lim => searchLimAnswer (tableAutomaton t s) (w == "1") m d lo hi lim
+    | _, _, _, _ => "bad-op"
   | ["aut", a, lo, hi] =>
     match parseAut tables a, parseBound lo, parseBound hi with
     | some (.pfx p), some lo, some hi => searchAnswer (prefixAutomaton p) m d lo hi
@@ -280,8 +292,44 @@ def handle : List String → String
         let storeRegion := (indexBytes.take (indexBytes.length - 8)).drop fstLen
         let store := openStore storeRegion
         let addrs := store.all
-        s!"{",".intercalate (addrs.map (fun a => s!"{a.firstOrd}:{a.start}:{a.stop}"))}|{showNats (os.map store.locateOrd)}|reenc={showBool (store.reencodeOk && reencodeStoreOk storeRegion)}"
+        s!"{",".intercalate (addrs.map (fun a => s!"{a.firstOrd}:{a.start}:{a.stop}"))}|{showNats (os.map store.locateOrd)}|reenc={showBool (store.reencodeOk && reencodeStoreOk storeRegion && reencodeStoreOwnOk storeRegion && rebuildStoreOk storeRegion)}"
     | _, _ => "bad-op"
+  | ["o2t", kind, h, os] =>
+    if kind != "void" && kind != "u64" && kind != "range" then "bad-op" else
+    match bytesOfHex h, valList os with
+    | some bs, some os =>
+      let skip : List UInt8 → List UInt8 :=
+        if kind == "void" then id else if kind == "u64" then (fun p => (loadU64Mono p).2) else (fun p => (loadRange p).2)
+      let f := openFile bs
+      ",".intercalate (os.map (fun o => match openedOrdToTerm skip f o with
+        | none => "Z"
+        | some none => "-"
+        | some (some k) => s!"k{hexOfBytes k}"))
+    | _, _ => "bad-op"
+  | ["kblk", kind, h, bl, ks, probes] =>
+    if kind != "void" && kind != "u64" && kind != "range" then "bad-op" else
+    match bytesOfHex h, bl.toNat?, keyList ks, keyList probes with
+    | some bs, some bl, some ks, some probes =>
+      let skip : List UInt8 → List UInt8 :=
+        if kind == "void" then id else if kind == "u64" then (fun p => (loadU64Mono p).2) else (fun p => (loadRange p).2)
+      let d := build bl (ks.map (fun k => (k, 0)))
+      let f := openFile bs
+      ";".intercalate (probes.map (fun k =>
+        let a := match fileBlockForKey d.locateKey f k with
+          | none => "-"
+          | some a => s!"{a.firstOrd}:{a.start}:{a.stop}"
+        let h := match fileTermOrdOrNext d.locateKey skip f k with
+          | none => "Z"
+          | some h => showHit h
+        let vals : List UInt8 → List Nat :=
+          if kind == "void" then (fun p => (decodeBlockKeys p).map (fun _ => 0))
+          else if kind == "u64" then (fun p => (loadU64Mono p).1) else (fun p => (loadRange p).1.map (·.1))
+        let g := match fileGet d.locateKey skip vals f k with
+          | none => "Z"
+          | some none => "-"
+          | some (some v) => s!"v{v}"
+        s!"{a}/{h}/{g}"))
+    | _, _, _, _ => "bad-op"
   | ["bitpack", vs, ws] =>
     match valList vs, valList ws with
     | some vs, some ws => if vs.length = ws.length then hexOfBytes (bitPack (vs.zip ws)) else "bad-op"
